@@ -49,6 +49,54 @@ def _classify(stmts):
     return set(out)
 
 
+# constant-condition ?: whose arms are value-producing operations, followed by another one in the same expression:
+# the discarded arm must vanish without disturbing the temporaries of the operations that stay
+_DECL = "int32_t i = RsV; int32_t j = RtV; int32_t k = RuV;"
+_OBS = "ReV = i + (j << 8); RxV = k;"
+CONST_ARM_TEMPLATES = [f"{{ {_DECL} RdV = ({c} ? {a} : {b}) + {t}; {_OBS} }}"
+                       for c in ("(0 == 1)", "(1 == 1)", "0", "1", "(2 < 1)", "(3 > 2)")
+                       for a, b in (("i++", "j++"), ("clz32(i)", "clo32(j)"), ("i--", "clz32(j)"), ("i++", "7"), ("5", "j--"))
+                       for t in ("k++", "clz32(k)", "k-- + i++", "(k++ + j++)")] + \
+                      [f"{{ {_DECL} RdV = {t} + ({c} ? {a} : {b}); {_OBS} }}"
+                       for c in ("(0 == 1)", "1") for a, b in (("i++", "j++"), ("clz32(i)", "j++")) for t in ("k++", "clz32(k)")] + \
+                      [f"{{ {_DECL} RdV = ({c} ? i++ : j++) + ({c2} ? j++ : k++) + i++; {_OBS} }}"
+                       for c in ("0", "1") for c2 in ("0", "1")]
+
+
+def template_worker(texts):
+    from .. import boot, diff
+    from ..cref import operands_closure
+    from ..il import reader
+    p = run.Part()
+    c = boot.compiler()
+    resolver = diff.make_resolver(c)
+    subs = diff.bundled_subs()
+    for text in texts:
+        p.ev()
+        st, il = progcheck.try_compile(c, text)
+        if st != "ok":
+            p.count("template:rejected")
+            continue
+        p.count("template:accepted")
+        try:
+            ast = diff.parse_c(text)
+            body = reader.parse_body(il)
+        except Exception as e:
+            p.failure("C06 template il-unreadable", {"program": text, "error": str(e)[:200]})
+            continue
+        for stt in diff.simple_states(operands_closure(ast, subs), 4, 11):
+            r, _ = progcheck.judge_state(ast, body, stt, resolver, subs)
+            if r is None:
+                p.nontriv(("template", text, run.h64(stt)))
+                continue
+            if r[0] == "discard":
+                p.discard(r[1])
+                continue
+            p.failure(f"C06 template {r[0]}", {"program": text, "state": stt, "kind": r[0], "detail": r[1], "il": il})
+            break
+    return p.d
+
+
 def run_check(ctx):
     ctx.rule = ("Hypothesis programs with 0..4 hybrids (postfix ++/--, sub-routine calls, statement-expressions) in initialisers, "
                 "assignments, if conditions, loop steps, call arguments, store operands x generated states; non-trivial = distinct "
@@ -59,6 +107,8 @@ def run_check(ctx):
     n, ns = (12000, 8) if ctx.tier == "thorough" else (560, 5)
     progcheck.run_gen(ctx, "C06", BASE | enable, n, ns, depth=2, nest=2, lo=1, hi=4,
                       nontrivial=_nontrivial, classify=_classify, native_all=(ctx.tier == "thorough"))
+    ctx.extra["const_arm_templates"] = len(CONST_ARM_TEMPLATES)
+    run.run_sharded(ctx, template_worker, [(CONST_ARM_TEMPLATES[i::16],) for i in range(16)])
     for c in ("class:hybrid:post", "class:hybrid:call", "class:hybrid:stmtexpr", "class:hybrid in if-condition",
               "class:hybrid as loop step"):
         if ctx.classes.get(c, 0) == 0:
